@@ -431,7 +431,10 @@ namespace c07
       check_stop_logic(L, R, kind, skip_class, xfin, avoid_gmres_overshoot ? 1ul : 0ul);
       // S1
       LD allowed = 0, slack = 0, rn = 0;
-      if(R.status == (int)Status::success)
+      // defect-skipping class (min_iter >= max_iter, skipping allowed, no plot, no stagnation check): documented as "the defect is
+      // not computed"; the returned status then rests on a stale value (the initial defect, for (F)GMRES the last inner estimate)
+      // and is not judged against the residual (false alarm seen: GMRES(4), n=1, one forced iteration -> 0/0, stale estimate 0)
+      if(R.status == (int)Status::success && !(skip_class && R.iters > 0))
       {
         VF_CHECK(xfin, "S1 " << tag << ": success with a non-finite iterate");
         rn = norm2(resid(D, R.x, b)); LD xn = norm2(R.x);
@@ -442,6 +445,10 @@ namespace c07
         // ||b - A x_k - r_k|| <= c k u ||A|| max_j ||x_j||); the start vector is the available bound for it (false alarm seen: GroppPCG,
         // zero rhs, ||x0|| ~ 1e3, ||A|| ~ 1e4, tol_abs = 1e-10, i.e. 17 digits below the initial defect)
         slack = 8.0L * (LD)(R.iters + 1) * (LD)n * u * (Afro * std::max(xn, x0n) + bn) + 16.0L * (LD)std::numeric_limits<DT>::min();
+        // communication-hiding variants replace the products A p, A u, ... by recurrences; their local rounding errors are propagated
+        // into the residual gap with an amplification that grows with the condition number (Cools et al., SIMAX 39 (2018): maximal
+        // attainable accuracy of pipelined CG).  False alarm seen: PipePCG, n=2, kappa=1e3, tol_abs 1.6e-13*d0, gap 12x the plain bound.
+        if(kind == K_PIPEPCG || kind == K_GROPPPCG || kind == K_RBICGSTAB) slack *= (LD)std::max(1.0, kap);
         VF_CHECK(rn <= allowed * (1.0L + 1e-6L) + slack, "S1 " << tag << ": status success after " << R.iters << " iterations but ||b-Ax|| = " << (double)rn << " > accepted " << (double)allowed << " (+ rounding slack " << (double)slack
           << "); d0 " << (double)d0 << " reported final defect " << (double)R.defF);
       }
